@@ -369,3 +369,207 @@ def _vec_push(eng, m, args, fr):
     v = deref(eng, args[0], fr)
     v.items.append(args[1])
     return ()
+
+
+# ---------------------------------------------------------------- generic Vec<T>
+@model(r'^<Vec<.*> as (std::default::)?Default>::default$|^Vec::<.*>::new$')
+def _vec_default(eng, m, args, fr):
+    return Vec([])
+
+
+@model(r'^Vec::<.*>::len$|^core::slice::<impl \[.*\]>::len$')
+def _vlen(eng, m, args, fr):
+    return mkint(len(bytes_of(eng, args[0], fr)), 'usize')
+
+
+@model(r'^Vec::<.*>::is_empty$|^core::slice::<impl \[.*\]>::is_empty$')
+def _vempty(eng, m, args, fr):
+    return Bool(z3.BoolVal(len(bytes_of(eng, args[0], fr)) == 0))
+
+
+@model(r'^<Vec<.*> as Clone>::clone$|^(std|core)::slice::<impl \[.*\]>::to_vec$|^std::slice::<impl \[.*\]>::to_vec$')
+def _vclone(eng, m, args, fr):
+    return Vec(list(bytes_of(eng, args[0], fr)))
+
+
+@model(r'^<Vec<.*> as Deref>::deref$|^Vec::<.*>::as_slice$')
+def _vderef(eng, m, args, fr):
+    r = args[0]
+    while isinstance(deref_once(eng, r, fr), Ref):
+        r = deref_once(eng, r, fr)
+    return Slice(r, 0, len(bytes_of(eng, r, fr)))
+
+
+@model(r'^Vec::<.*>::pop$')
+def _vpop(eng, m, args, fr):
+    v = deref(eng, args[0], fr)
+    if not v.items:
+        return Enum('Option', 'None', [])
+    return Enum('Option', 'Some', [v.items.pop()])
+
+
+@model(r'^<Vec<.*> as (std::ops::)?Index<usize>>::index$')
+def _vindex(eng, m, args, fr):
+    return _vec_index(eng, m, args, fr)
+
+
+class BoxUninit:
+    def __init__(self):
+        self.cell = Cell(Struct('MaybeUninit', [None, Struct('ManuallyDrop', [Struct('MaybeDangling', [None])])]))
+
+
+@model(r'^Box::<\[.*; \d+\]>::new_uninit$')
+def _box_new_uninit(eng, m, args, fr):
+    b = BoxUninit()
+    # Box(Unique(NonNull(ptr)))  -> (_b.0).0 is the pointer
+    return Struct('Box', [Struct('Unique', [Ref(b.cell)])])
+
+
+@model(r'^std::boxed::box_assume_init_into_vec_unsafe::<.*>$')
+def _box_into_vec(eng, m, args, fr):
+    ptr = args[0].fields[0].fields[0]
+    arr = ptr.cell.v.fields[1].fields[0].fields[0]
+    return Vec(list(arr.items))
+
+
+@model(r'^char::methods::<impl char>::is_whitespace$')
+def _is_ws(eng, m, args, fr):
+    c = args[0].e
+    ws = [9, 10, 11, 12, 13, 32, 0x85, 0xA0, 0x1680, 0x2028, 0x2029, 0x202F, 0x205F, 0x3000] + list(range(0x2000, 0x200B))
+    return Bool(z3.Or(*[c == z3.BitVecVal(k, 32) for k in ws]))
+
+
+@model(r'^<(\w+) as (PartialEq|PartialOrd)>::(eq|ne)$')
+def _prim_eq(eng, m, args, fr):
+    a, b = deref(eng, args[0], fr), deref(eng, args[1], fr)
+    if isinstance(a, Int) and isinstance(b, Int):
+        return Bool(a.e == b.e if m.group(3) == 'eq' else a.e != b.e)
+    return NotImplemented
+
+
+def deep_copy(v):
+    if isinstance(v, Struct):
+        return Struct(v.ty, [deep_copy(x) for x in v.fields])
+    if isinstance(v, Enum):
+        return Enum(v.ty, v.variant, [deep_copy(x) for x in v.fields])
+    if isinstance(v, Vec):
+        return Vec([deep_copy(x) for x in v.items])
+    if isinstance(v, tuple):
+        return tuple(deep_copy(x) for x in v)
+    return v        # Int/Big/Bool immutable; Cell = shared Rc; Opaque
+
+
+@model(r'^<.* as Clone>::clone$')
+def _generic_clone(eng, m, args, fr):
+    return deep_copy(deref(eng, args[0], fr))
+
+
+class IterV:
+    def __init__(self, refs):
+        self.refs = list(refs)
+        self.pos = 0
+
+
+def elem_refs(eng, v, fr):
+    if isinstance(v, Slice):
+        r = v.ref
+        return [Ref(r.cell, list(r.proj) + [('cindex', v.start + i)]) for i in range(v.length)]
+    r = v
+    while isinstance(deref_once(eng, r, fr), Ref):
+        r = deref_once(eng, r, fr)
+    n = len(bytes_of(eng, r, fr))
+    return [Ref(r.cell, list(r.proj) + [('cindex', i)]) for i in range(n)]
+
+
+@model(r'^<&\[.*\] as IntoIterator>::into_iter$|^core::slice::<impl \[.*\]>::iter$|^<&Vec<.*> as IntoIterator>::into_iter$')
+def _slice_iter(eng, m, args, fr):
+    return IterV(elem_refs(eng, args[0], fr))
+
+
+@model(r'^<std::slice::Iter<.*> as Iterator>::rev$')
+def _iter_rev(eng, m, args, fr):
+    it = args[0]
+    return IterV(list(reversed(it.refs[it.pos:])))
+
+
+@model(r'^<(Rev<)?std::slice::Iter<.*>(>)? as IntoIterator>::into_iter$')
+def _iter_into_iter(eng, m, args, fr):
+    return args[0]
+
+
+@model(r'^<(Rev<)?std::slice::Iter<.*>(>)? as Iterator>::next$')
+def _iter_next(eng, m, args, fr):
+    it = deref(eng, args[0], fr)
+    if it.pos >= len(it.refs):
+        return Enum('Option', 'None', [])
+    it.pos += 1
+    return Enum('Option', 'Some', [it.refs[it.pos - 1]])
+
+
+def seq_eq(eng, a, b, fr):
+    xa, xb = bytes_of(eng, a, fr), bytes_of(eng, b, fr)
+    if len(xa) != len(xb):
+        return z3.BoolVal(False)
+    if not xa:
+        return z3.BoolVal(True)
+    return z3.And(*[p.e == q.e for p, q in zip(xa, xb)])
+
+
+@model(r'^<(\[u8\]|Vec<u8>|&\[u8\]|\[u8; \d+\]) as PartialEq<(.*)>>::(eq|ne)$|^<(Vec<u8>|\[u8\]) as PartialEq>::(eq|ne)$')
+def _bytes_eq(eng, m, args, fr):
+    e = seq_eq(eng, args[0], args[1], fr)
+    ne = (m.group(3) or m.group(5)) == 'ne'
+    return Bool(z3.Not(e) if ne else e)
+
+
+@model(r'^(std::string::)?String::from_utf8_lossy$')
+def _from_utf8_lossy(eng, m, args, fr):
+    items = bytes_of(eng, args[0], fr)
+    ascii_ok = z3.And(*[z3.ULT(b.e, 128) for b in items]) if items else z3.BoolVal(True)
+    if not eng.branch_bool(ascii_ok):
+        raise PathEnd('bound', 'non-ASCII through from_utf8_lossy (model covers ASCII only)')
+    return Vec(list(items))          # Cow<str> as the byte list
+
+
+@model(r'^<Cow<.*> as AsRef<str>>::as_ref$|^<str as ToString>::to_string$|^<(std::string::)?String as Deref>::deref$|^String::as_str$|^core::str::<impl str>::as_bytes$|^String::as_bytes$')
+def _str_ident(eng, m, args, fr):
+    v = args[0]
+    if isinstance(v, (Ref, Slice)):
+        return v
+    return Vec(list(bytes_of(eng, v, fr))) if isinstance(v, Vec) else v
+
+
+@model(r'^<BigInt as Num>::from_str_radix$')
+def _from_str_radix(eng, m, args, fr):
+    items = bytes_of(eng, args[0], fr)
+    radix = concrete(args[1].e)
+    if radix != 10:
+        raise Unsupported('from_str_radix radix %r' % radix)
+    if not items:
+        return Enum('Result', 'Err', [Opaque('ParseBigIntError')])
+    neg = eng.branch_bool(items[0].e == 45)
+    plus = (not neg) and eng.branch_bool(items[0].e == 43)
+    digs = items[1:] if (neg or plus) else items
+    if not digs:
+        return Enum('Result', 'Err', [Opaque('ParseBigIntError')])
+    # num-bigint also accepts '_' separators (not first); model: digits only, else 'bound'
+    alld = z3.And(*[z3.And(z3.UGE(b.e, 48), z3.ULE(b.e, 57)) for b in digs])
+    if not eng.branch_bool(alld):
+        under = z3.Or(*[b.e == 95 for b in digs])
+        if eng.branch_bool(under):
+            raise PathEnd('bound', "from_str_radix with '_' separator not modelled")
+        return Enum('Result', 'Err', [Opaque('ParseBigIntError')])
+    acc = z3.BitVecVal(0, BIGW)
+    for b in digs:
+        acc = acc * 10 + z3.ZeroExt(BIGW - 8, b.e - 48)
+    if 10 ** len(digs) >= 1 << (BIGW - 1):
+        raise PathEnd('bound', 'decimal literal too long for BigInt model')
+    return Enum('Result', 'Ok', [Big(-acc if neg else acc)])
+
+
+@model(r'^(std::result::)?Result::<.*>::(unwrap|expect)$')
+def _res_unwrap(eng, m, args, fr):
+    v = args[0]
+    if v.variant == 'Err':
+        raise PathEnd('panic', 'unwrap on Err')
+    return v.fields[0]
